@@ -135,7 +135,7 @@ def run(ctx):
 
 MANIFEST = {
     "category": "other",
-    "technique": "provenance (backward def-use over MIR, variant-aware through the state enum) and edge-guard rules on LogSync::run",
+    "technique": "provenance (backward def-use over MIR, variant-aware through the state enum) and edge-guard rules on LogSync::run; diff-unmodified rule (no mutable borrow between compare() and the sending state)",
     "text": "Partial: decides only the provenance facts (who is local/remote in the diff, argument order of the range queries, dedup guards). The delivery behaviour itself depends on runtime store contents and is explicitly not claimed.",
     "note": "Trusted: rustc MIR, driver, rule engine. Complements C06 (diff table).",
 }
